@@ -73,6 +73,12 @@ def build(tr, H, expanded=False):
         if name == "n":
             # no source location: nothing to prefix, but item paths still get URL-quoted on the way out
             return [H.HTMLDependency(name, ver, script=[{"src": "my widget.js"}], stylesheet={"href": "a%b é.css"})]
+        if name == "h":
+            # a source directory spelled in a non-normalised way: whatever a method makes of it, the object keeps its spelling
+            return [H.HTMLDependency(name, ver, source={"subdir": "lib src/./sub/.."}, script={"src": "x.js"})]
+        if tr.get("v"):
+            # same name and version, another value (its script): a different dependency
+            return [H.HTMLDependency(name, ver, script={"src": tr["v"] + ".js"})]
         return [H.HTMLDependency(name, ver)]
     if f == "R":
         return [gamma.ReprObj("<r/>")]
@@ -438,7 +444,7 @@ def rand_tree(rnd, maxnodes, with_tfy=True, depth=0, counter=None, root=True):
     if kind == "M":
         return {"f": "M"}
     if kind == "D":
-        return {"f": "D", "name": rnd.choice(["d@1.0", "d@1.10", "e@2", "f@0.1", "n@1", "g@3"])}
+        return {"f": "D", "name": rnd.choice(["d@1.0", "d@1.10", "e@2", "f@0.1", "n@1", "g@3", "h@1.0"])}
     if kind == "R":
         return {"f": "R"}
     kids = []
@@ -449,9 +455,9 @@ def rand_tree(rnd, maxnodes, with_tfy=True, depth=0, counter=None, root=True):
     if kind == "F":
         mode = rnd.choice(["list", "list", "listT", "tag", "str", "html", "dep"])
         if mode == "str":
-            kids = [{"f": "S", "v": "w"}]
+            kids = [{"f": "S", "v": rnd.choice(["w", "w", ""])}]
         elif mode == "html":
-            kids = [{"f": "H", "v": "<i>e</i>"}]
+            kids = [{"f": "H", "v": rnd.choice(["<i>e</i>", "<i>e</i>", ""])}]
         elif mode == "dep":
             kids = [{"f": "D", "name": "g@3"}]
         return {"f": "F", "mode": mode, "kids": kids}
@@ -666,7 +672,7 @@ def variants(rnd, t):
     a = t
     b = _j.loads(_j.dumps(t))
     choice = rnd.choice(["same", "same", "name", "ws", "attrval", "attrset", "attrorder", "childtext", "childstruct",
-                         "childname", "kind_list", "foreign"])
+                         "childname", "kind_list", "foreign", "depvalue", "depsame"])
     if choice == "name":
         b["name"] = b["name"] + "x"
     elif choice == "ws":
@@ -691,6 +697,10 @@ def variants(rnd, t):
     elif choice == "childname":
         a = dict(a, kids=a["kids"] + [{"f": "T", "name": "i", "ws": False, "attrs": [], "kids": []}])
         b["kids"] = b["kids"] + [{"f": "T", "name": "em", "ws": False, "attrs": [], "kids": []}]
+    elif choice in ("depvalue", "depsame"):
+        # dependencies are compared by value: the same name and version with another script is another dependency
+        a = dict(a, kids=a["kids"] + [{"f": "D", "name": "d@1.0", "v": "s1"}])
+        b["kids"] = b["kids"] + [{"f": "D", "name": "d@1.0", "v": "s1" if choice == "depsame" else "s2"}]
     elif choice == "kind_list":
         b = {"f": "L", "kids": b["kids"]}
     elif choice == "foreign":
